@@ -50,25 +50,33 @@ def save_replay(pid, history, step=None, tag=""):
 def conclude(pid, tier, level, histories, failures, rerun, coverage, t0, assumptions, max_report=6):
     """failures: list of vtrace.Failure.  rerun(history) -> list of Failure for that single history."""
     known = vc.load_known()
-    firsts = vtrace.first_failures(failures, pid)
-    # one representative (shortest prefix) per failure signature
-    reps = {}
-    for hi, f in firsts.items():
-        k = f.key()
-        if k not in reps or f.step < reps[k].step:
-            reps[k] = f
-    violations = []
+    # per history: every failure of this property at its first failing step (later steps may be consequences)
+    first_step = {}
+    for f in failures:
+        if f.prop in (pid, "CRASH") and (f.history not in first_step or f.step < first_step[f.history]):
+            first_step[f.history] = f.step
     known_hits = {}
-    flaky = 0
-    unconfirmed_budget = max_report * 3
-    for k, f in sorted(reps.items(), key=lambda kv: kv[1].step):
+    # every single failure is matched against the known findings on its own (what + detail + command): a listed finding
+    # never hides a different failure that merely shares its label; representatives are chosen among the unlisted ones
+    reps = {}
+    for f in failures:
+        if f.prop not in (pid, "CRASH") or f.step != first_step.get(f.history):
+            continue
         hist = histories[f.history]
         cmd = hist[f.step] if 0 <= f.step < len(hist) else None
         kf = match_known(pid, f, cmd, known)
         if kf:
             known_hits[kf["id"]] = kf
             continue
-        # every signature is matched against the known findings; only the re-runs are budgeted
+        k = f.key()
+        if k not in reps or f.step < reps[k].step:
+            reps[k] = f
+    violations = []
+    flaky = 0
+    unconfirmed_budget = max_report * 3
+    for k, f in sorted(reps.items(), key=lambda kv: kv[1].step):
+        hist = histories[f.history]
+        # only the re-runs are budgeted
         if unconfirmed_budget <= 0:
             violations.append((f, save_replay(pid, hist, f.step if f.prop != "CRASH" else None)))
             continue
@@ -103,9 +111,10 @@ def replay_one(pid, replay, rerun):
     hist = [json.loads(l) for l in open(replay) if l.strip()]
     fails = rerun(hist)
     known = vc.load_known()
-    firsts = vtrace.first_failures(fails, pid)
+    mine = [f for f in fails if f.prop in (pid, "CRASH")]
+    step0 = min([f.step for f in mine]) if mine else -1
     rc = 0
-    for hi, f in firsts.items():
+    for f in [f for f in mine if f.step == step0]:
         cmd = hist[f.step] if 0 <= f.step < len(hist) else None
         kf = match_known(pid, f, cmd, known)
         if kf:
@@ -390,7 +399,7 @@ SEQ_ASSUME = ["songs are generated from the integral-tempo family (one tick = wh
               "harness/drive_seq.cpp encodes abstract songs to SMF bytes (trusted encoder, ~60 lines)"]
 
 
-def run_seq_family(pid, tier, replay, make_histories, model=True):
+def run_seq_family(pid, tier, replay, make_histories, model=True, mc="SeqMC_%s.cfg"):
     t0 = time.time()
     rng = random.Random(vc.seed() * 7919 + sum(map(ord, pid)))
 
@@ -406,7 +415,7 @@ def run_seq_family(pid, tier, replay, make_histories, model=True):
     if stats["infra"]:
         print("INFRA:", stats["infra"][0][:2000])
         return 3
-    mruns = seq_model_phase(pid, tier) if model else []
+    mruns = seq_model_phase(pid, tier, mc) if model else []
     coverage = {
         "states": sum(r.distinct for r in mruns), "transitions": sum(r.generated for r in mruns),
         "traces_validated_against_impl": len(histories), "records_validated": stats["records"],
@@ -430,13 +439,13 @@ def run_seq_family(pid, tier, replay, make_histories, model=True):
     return conclude(pid, tier, level, histories, failures, rerun, coverage, t0, SEQ_ASSUME)
 
 
-def seq_model_phase(pid, tier):
+def seq_model_phase(pid, tier, mc="SeqMC_%s.cfg"):
     """Leg (A): exhaustive model checking of spec/SeqMC (if present)."""
     if not os.path.exists(os.path.join(vc.SPEC, "SeqMC.tla")):
         return []
     runs = []
     for name in (["quick"] if tier == "quick" else ["quick", "thorough"]):
-        cfg = os.path.join(vc.SPEC, "SeqMC_%s.cfg" % name)
+        cfg = os.path.join(vc.SPEC, mc % name)
         if os.path.exists(cfg):
             r = vc.run_tlc("SeqMC", cfg=os.path.basename(cfg), timeout=2400, heap="16g", tag="SeqMC-" + pid)
             r.scope = {"cfg": name}
@@ -483,4 +492,4 @@ def check_c08(pid, tier, replay):
             # melodic channels only: no percussion minimum-life residue after the seek
             hs.append(gen_seq.seek_history(rng, song))
         return hs
-    return run_seq_family(pid, tier, replay, mk, model=False)
+    return run_seq_family(pid, tier, replay, mk, mc="SeqMC_seek_%s.cfg")
